@@ -113,4 +113,16 @@ CHECKS = {
         "level_note": "Enumeration is complete per dictionary <= 4 KiB; the set of dictionaries and of mutations is sampled. Known findings D9, D18, D24 via probes.",
         "technique": "fault injection at every sink offset + mutation workload under panic/exit-status monitors + load-and-analyse arbiter",
     },
+    "C18": {
+        "level_text": "Exploration with race detectors: many threads with private tokenizers hammer one shared dictionary (every plugin type, user dictionaries) from a barrier start; results are compared with a single-threaded baseline, the dictionary is digested before and after, and the same workload runs under ThreadSanitizer (quick) and Miri with several scheduler seeds (thorough); Python threads over one Dictionary are checked for result equality and interpreter survival.",
+        "design_ref": "DESIGN.md 6/C18",
+        "level_note": "Race detectors see only executed schedules; CPython is uninstrumented, so the Python half has no race detector. Interleaving evidence (overlapping operation pairs, order signatures) is in the evidence file.",
+        "technique": "stress workload + ThreadSanitizer + Miri data-race detection + result/digest differential monitors",
+    },
+    "C19": {
+        "level_text": "Exploration, differential across language boundaries: the sudachipy extension and the sudachi CLI are built from the working tree and driven as child processes on generated scenarios; every reported field / output line is compared with what the core library computes in-process for the same input, API histories are followed by probes, exit statuses are the crash monitor.",
+        "design_ref": "DESIGN.md 6/C19",
+        "level_note": "The in-process library result is the reference. Python exceptions (incl. PyO3 PanicException) are not crashes.",
+        "technique": "cross-process differential monitor (Python extension and CLI vs in-process library) + exit-status crash monitor",
+    },
 }
